@@ -119,6 +119,15 @@ class SysSim(Engine):
             return {"world": world, "ops": ops}
         world = gen_sysworld(rng, small=True)
         world["build"]["path"] = rng.choice(["direct", "reader"])
+        if prop == "C19" and rng.chance(0.12):
+            # a hand-built dimension without declared type whose labels are numbers and text ("1", "2", "3+" size classes)
+            cand = [d for d in world["dims"][1:] if d["dtype"] in ("str", "int") and not d.get("awkward")]
+            if cand:
+                d = rng.choice(cand)
+                d["items"] = ([1, 2, "3+"] if rng.chance(0.5) else ["<1", 1, 5])[:max(2, len(d["items"]))] if len(d["items"]) > 1 else [7]
+                d["dtype"] = "mixed"
+                world["mixed"] = True
+                world["build"]["path"] = "direct"
         if prop == "C02":
             return {"world": world, "ops": self._gen_c02(rng, world, task, tier)}
         return {"world": world, "ops": self._gen_c19(rng, world, task, tier)}
@@ -189,11 +198,13 @@ class SysSim(Engine):
 
     # ---- C19 workload
     def _gen_c19(self, rng, world, task, tier):
-        ops = [{"op": "fill", "vseed": rng.randint(0, 10 ** 6)}]
+        ops = [{"op": "fill", "vseed": rng.randint(0, 10 ** 6), "inf": rng.randint(1, 1000) if rng.chance(0.12) else 0}]
         if world["stocks"] and rng.chance(0.3):
             ops.insert(0, {"op": "user_arrays"})
         for _ in range(rng.randint(1, 5)):
             kind = rng.weighted([("to_dict", 3), ("pickle", 2), ("flows_csv", 3), ("stocks_csv", 3), ("to_dfs", 1)])
+            if world.get("mixed") and kind in ("flows_csv", "stocks_csv"):
+                kind = "to_dict"  # untyped labels of mixed type do not survive text files; the in-memory forms and the pickle do
             if rng.chance(0.3):
                 ops.append({"op": "fill", "vseed": rng.randint(0, 10 ** 6)})
             op = {"op": kind, "type": rng.choice(["numpy", "pandas"]), "with_io": rng.chance(0.5), "dir": rng.choice(["new", "existing", "nested"]),
@@ -795,6 +806,12 @@ class SysSim(Engine):
                         [(r, getattr(sys_.stocks[s["name"]], r)) for s in world["stocks"] for r in ("stock", "inflow", "outflow")]:
                 size = a.values.size
                 new = (5000.25 + 1000 * k + 0.5 * rs.permutation(size)).reshape(a.values.shape)
+                if op.get("inf") and size >= 2 and (op["inf"] + k) % 2 == 0:
+                    # unbounded entries are values like any other
+                    flat = new.reshape(-1)
+                    flat[op["inf"] % size] = np.inf
+                    flat[(op["inf"] + 1) % size] = -np.inf
+                    self._probe(st, "exported_array_holds_plus_and_minus_inf")
                 if a.values.ndim >= 2 and (op["vseed"] + k) % 3 == 0:
                     # the model stored a Fortran-ordered / transposed result through the public setter
                     a.set_values(np.asfortranarray(new))
@@ -1065,7 +1082,10 @@ class SysSim(Engine):
             expected = {}
             if kind == "flows_csv":
                 for name in st.flow_names:
-                    expected[to_valid_file_name(name) + ".csv"] = sys_.flows[name]
+                    fn = to_valid_file_name(name) + ".csv"
+                    if fn in expected:
+                        bad(f"two flows with names that stay distinct after sanitising are written to the same file {fn}: no one file per flow")
+                    expected[fn] = sys_.flows[name]
             else:
                 for s in world["stocks"]:
                     so = sys_.stocks[s["name"]]
@@ -1092,6 +1112,8 @@ class SysSim(Engine):
             for fname, arr in expected.items():
                 if len(arr.dims) == 0:
                     continue
+                if any(d.dtype is None for d in arr.dims):
+                    continue  # untyped labels of mixed type (1, 2, "3+") come back from a text file as text: nothing to read back by
                 same_by_df(arr, pd.read_csv(os.path.join(target, fname), dtype=str, keep_default_na=False), f"file {fname}")
             if target in getattr(st, "unrelated_dirs", set()) and not os.path.exists(os.path.join(target, "unrelated.txt")):
                 bad("an unrelated file in the export directory disappeared")
